@@ -2,6 +2,7 @@ SPECIFICATION Spec
 CONSTANTS
   Dials <- DialsC
   Accepts <- AcceptsC
+  AbortDials <- NoAborts
   DSide <- CSide
   DId <- CId
   ASide <- CSide
